@@ -78,7 +78,7 @@ SupportedKinds == {"H", "Z", "X", "Y", "Rz", "Rx", "CX", "CZ", "CRz", "CRx", "CU
 
 VARIABLES zd       \* a ZX diagram (the register of the builder)
 ZXMenu == { ZB(k, n, m, ph) : k \in {"Z", "X"}, n \in 0..2, m \in 0..2, ph \in {0, 3, 8} }
-          \cup { ZB("H", 1, 1, 0), ZB("SWAP", 2, 2, 0), ZScalar(1, 1, 1), ZScalar(0, 1, 0) }
+          \cup { ZB("H", 1, 1, 0), ZB("SWAP", 2, 2, 0), ZScalar(1, 1, 1), ZScalar(0, 1, 0), ZScalar(1, 1, 0), ZScalar(1, 0 - 2, 2) }
 CONSTANTS ZMaxW, ZMaxBoxes
 ZInit == c = [dom |-> 0, layers |-> <<>>] /\ zd \in { [dom |-> n, layers |-> <<>>] : n \in 0..ZMaxW }
 ZBuild == /\ Len(zd.layers) < ZMaxBoxes
